@@ -75,6 +75,11 @@ func writeReplay(u *Universe, st *SpecTables, d *Discharger, id string, o *Oblig
 			confirmed = ok
 		}
 	}
+	if !confirmed && id == "C20" {
+		rep, ok := tablesProbe(u, st, repo)
+		sb.WriteString("---- probe ----\n" + rep + "\n")
+		confirmed = ok
+	}
 	if !confirmed && id == "C18" {
 		rep, ok := namesProbe(u, repo)
 		sb.WriteString("---- probe ----\n" + rep + "\n")
@@ -151,6 +156,11 @@ func probeProblem(u *Universe, st *SpecTables, repo, problem string, id string) 
 		hit = hit || ok
 		if dir != "v3/report" && !hit && id == "C12" {
 			r, ok := robustProbe(repo, dir)
+			sb.WriteString(r)
+			hit = hit || ok
+		}
+		if dir != "v3/report" && !hit && id == "C20" {
+			r, ok := tablesProbe(u, st, repo)
 			sb.WriteString(r)
 			hit = hit || ok
 		}
